@@ -22,6 +22,8 @@ fn gen_scenario(prop: &str, seed: u64) -> SchedScenario {
 }
 
 fn main() {
+    mmsim::sut::maybe_act_as_cli_subprocess();
+    mmsim::sut::init_cli_env();
     mmsim::util::install_counting_logger();
     mmsim::util::install_quiet_panic_hook();
     let args: Vec<String> = std::env::args().collect();
